@@ -260,3 +260,19 @@ impl From<BroadcastStreamRecvError> for SubscriptionError {
         SubscriptionError::Lagged(skipped)
     }
 }
+
+#[cfg(eigerco_lumina_verif)]
+impl<S> BroadcastingStore<S> {
+    /// Height of the last header handed to the broadcast channel.
+    pub(crate) fn verif_last_sent_height(&self) -> Option<u64> {
+        self.last_sent_height
+    }
+
+    /// Heights of the header ranges waiting for the gap below them to be filled.
+    pub(crate) fn verif_pending_heights(&self) -> Vec<Vec<u64>> {
+        self.pending
+            .iter()
+            .map(|range| range.iter().map(|h| h.height()).collect())
+            .collect()
+    }
+}
